@@ -729,7 +729,14 @@ func (c *pathBuilderVisitor) fieldIsChildNode(plannerIdx int) bool {
 	path := c.walker.Path.DotDelimitedString()
 	plannerPath := c.planners[plannerIdx].ParentPath()
 	fieldPath := strings.TrimPrefix(path, plannerPath)
-	return strings.ContainsAny(fieldPath, ".")
+	// inline fragments are path elements of the walker but not of the response:
+	// a field selected under `... on T` directly below the planner's parent is still a root field of the fetch
+	for _, element := range strings.Split(fieldPath, ".") {
+		if element != "" && !strings.HasPrefix(element, ast.InlineFragmentPathPrefix) {
+			return true
+		}
+	}
+	return false
 }
 
 // recordFieldPlannedOn - records the planner id on which the field was planned
